@@ -4,8 +4,8 @@ CONSTANTS
   Workers = {1}
   Full = 2
   Lifetimes = {0, 4}
-  MaxClock = 12
-  MaxHist = 4
+  MaxClock = 9
+  MaxHist = 3
   MaxLen = 0
 VIEW NoH
 CONSTRAINT Bound
